@@ -133,8 +133,9 @@ class Event(Exception):
 
 
 # ============================================================================ content model
-def file_write(x, fm, off, buf):
-    io_event(x, 'write', fm.name)
+def file_write(x, fm, off, buf, event=True):
+    if event:
+        io_event(x, 'write', fm.name)
     pos = x.tobv(off).t
     for c in x.deref(buf).chunks:
         ln = clen(c)
@@ -348,7 +349,6 @@ def install(x, rkyv_table=None):
         raise Unsupported('path value %r' % type(v))
 
     def f_create_dir_all(x, a, e):
-        io_event(x, 'mkdir', pathstr(a[0]))
         x.fs.dirs.add(pathstr(a[0]))
         return Ok(UNIT)
 
@@ -379,7 +379,8 @@ def install(x, rkyv_table=None):
     def m_sync_all(x, r, a, e):
         if fault(x, 'fsync'):
             return Err(Struct('IoError', {'kind': ConstV('ErrorKind::Other'), 'msg': PStr('injected: fsync failed')}))
-        io_event(x, 'fsync', r.path)
+        if not x.in_flush:
+            io_event(x, 'fsync', r.path)
         return Ok(UNIT)
 
     def f_read_dir(x, a, e):
@@ -487,7 +488,10 @@ def install(x, rkyv_table=None):
     mm[('FileV', 'read_at')] = m_read_at
     mm[('FileV', 'as_raw_fd')] = lambda x, r, a, e: r
 
-    fn['MmapMut::map_mut'] = lambda x, a, e: Ok(MmapMutV(x.deref(a[0])))
+    def f_map_mut(x, a, e):
+        # memmap2 maps a zero-length file as an empty mapping (no error); slicing it panics
+        return Ok(MmapMutV(x.deref(a[0])))
+    fn['MmapMut::map_mut'] = f_map_mut
     mm[('MmapMutV', 'len')] = lambda x, r, a, e: BV(r.maplen, 64)
     mm[('MmapMutV', 'as_ptr')] = lambda x, r, a, e: PtrOff(r, bv64(0))
     mm[('PtrOff', 'add')] = lambda x, r, a, e: PtrOff(r.mm, z3.simplify(r.off + x.tobv(a[0]).t))
@@ -495,7 +499,8 @@ def install(x, rkyv_table=None):
     def m_mmap_flush(x, r, a, e):
         if fault(x, 'fsync'):
             return Err(Struct('IoError', {'kind': ConstV('ErrorKind::Other'), 'msg': PStr('injected: msync failed')}))
-        io_event(x, 'msync', r.filev.path)
+        if not x.in_flush:
+            io_event(x, 'msync', r.filev.path)
         return Ok(UNIT)
     mm[('MmapMutV', 'flush')] = m_mmap_flush
 
@@ -571,17 +576,25 @@ def install(x, rkyv_table=None):
         if fault(x, 'uring_submit'):
             return Err(Struct('IoError', {'kind': ConstV('ErrorKind::Other'), 'msg': PStr('injected: submit failed')}))
         n = len(r.sq)
+        if any(op.kind == 'write' for op in r.sq):
+            io_event(x, 'uring_submit', str(n))
         for i, op in enumerate(r.sq):
             f = fault(x, 'uring_cqe', i)
             if op.kind == 'write':
                 want = x.tobv(op.ln)
                 if f == 'neg':
                     res = BV(z3.BitVecVal(-5 & 0xffffffff, 32), 32, True)
+                elif f == 'neg_written':
+                    # the write reached the file but the completion reports failure (what the fault hook replays)
+                    file_write(x, op.fd.fm, op.off, op.buf, event=False)
+                    end = z3.simplify(x.tobv(op.off).t + x.buf_len(op.buf).t)
+                    op.fd.fm.length = z3.simplify(z3.If(z3.UGT(end, op.fd.fm.length), end, op.fd.fm.length))
+                    res = BV(z3.BitVecVal(-5 & 0xffffffff, 32), 32, True)
                 elif f == 'short':
                     res = BV(z3.BitVecVal(1, 32), 32, True)
-                    file_write(x, op.fd.fm, op.off, Buffer([chunk_prefix(x, op.buf.chunks[0], bv64(1))]) if op.buf.chunks else Buffer([]))
+                    file_write(x, op.fd.fm, op.off, Buffer([chunk_prefix(x, op.buf.chunks[0], bv64(1))]) if op.buf.chunks else Buffer([]), event=False)
                 else:
-                    file_write(x, op.fd.fm, op.off, op.buf)
+                    file_write(x, op.fd.fm, op.off, op.buf, event=False)
                     end = z3.simplify(x.tobv(op.off).t + x.buf_len(op.buf).t)
                     op.fd.fm.length = z3.simplify(z3.If(z3.UGT(end, op.fd.fm.length), end, op.fd.fm.length))
                     res = BV(z3.Extract(31, 0, want.t) if want.bits > 32 else want.t, 32, True)
@@ -627,6 +640,23 @@ def install(x, rkyv_table=None):
     fn['std::env::var'] = f_env_var
     fn['env::var'] = f_env_var
     fn['std::env::var_os'] = lambda x, a, e: m_opt(f_env_var(x, a, e))
+
+    # ---- StorageImpl::flush is one event ('flush'), whatever it does inside
+    x.in_flush = 0
+    old_call_fn = x.call_fn
+
+    def call_fn(item, args, self_val=None):
+        if item['sig']['name'] == 'flush' and item.get('_ty') == 'StorageImpl':
+            if fault(x, 'flush'):
+                return Err(Struct('IoError', {'kind': ConstV('ErrorKind::Other'), 'msg': PStr('injected: flush failed')}))
+            io_event(x, 'flush', '')
+            x.in_flush += 1
+            try:
+                return old_call_fn(item, args, self_val)
+            finally:
+                x.in_flush -= 1
+        return old_call_fn(item, args, self_val)
+    x.call_fn = call_fn
 
     # ---- CkVal comparison
     old_binop = x.binop
